@@ -316,8 +316,9 @@ def run_dist_case(dname, cfg, pname, seed, tier, res=None, only=None):
     d = DC.DSUBJECTS[dname]
     sig = DC.dev_signature(d, cfg)
     depth = 2 if tier == "quick" else 3
-    x1, x2 = d.points(cfg, 3, seed), d.points(cfg, 2, seed + 3)
-    c1, c2 = d.contexts(cfg, 3, seed), d.contexts(cfg, 2, seed + 3)
+    # float32, the precision the library's samplers work in (they create default-dtype noise: a .double() model cannot be sampled)
+    x1, x2 = d.points(cfg, 3, seed, dtype=torch.float32), d.points(cfg, 2, seed + 3, dtype=torch.float32)
+    c1, c2 = d.contexts(cfg, 3, seed, dtype=torch.float32), d.contexts(cfg, 2, seed + 3, dtype=torch.float32)
     ops = [o for o in D_OPS if (o != "t2n" or d.is_flow) and (o not in ("sample", "salp") or d.can_sample)]
     jobs = [(only["train"], only["kind_arg"], tuple(only["hist"]))] if only else [(tr, k, h) for tr in (False, True) for k in KINDS for h in histories(ops, depth)]
     if only and not only["train"]:
@@ -325,7 +326,7 @@ def run_dist_case(dname, cfg, pname, seed, tier, res=None, only=None):
     refs = {}
     for train, kind, hist in jobs:
         try:
-            obj = DC.materialise(d, cfg, pname, seed, train=train)
+            obj = DC.materialise(d, cfg, pname, seed, dtype=torch.float32, train=train)
         except Exception as e:
             if res is not None:
                 bump(res["skipped"], "cannot-construct: %s" % type(e).__name__)
